@@ -11,7 +11,8 @@ from vlib.core import Broken, Mismatch, Failing
 
 ID = 'C06'
 LEVEL = 'proof'
-THEORIES = ['theories/L1Circuits/CircuitsProofs.vo', 'theories/L2Compile/AcceptProofs.vo',
+THEORIES = ['theories/L1Circuits/CircuitsProofs.vo', 'theories/L1Circuits/DeepProofs.vo',
+            'theories/L2Compile/AcceptProofs.vo',
             'theories/L2Compile/CompileProofs.vo',
             'theories/L2Compile/Check.vo']
 
@@ -384,6 +385,24 @@ def correspond(ctx):
             impl=run['impl'] if run['impl'] is None or len(run['impl']) <= 64
             else '(table of %d rows)' % len(run['impl']),
             property_fails=True if f else None))
+    # L1d: the emitted circuits, token by token (auxiliary structural tie)
+    from vlib import fol_deep
+    deep = list(fol_deep.cases(7 if ctx.thorough else 5))
+    dres = ctx.eval_groups('deep', fol_deep.HEADER,
+                           [('', [t]) for _, t in deep], shard=40, timeout=1500)
+    dbad = [lab for (lab, _), ok in zip(deep, dres) if not ok]
+    for lab in dbad[:6]:
+        mism.append(Mismatch(
+            'the formulas/registers emitted by bitvector.py differ from the '
+            'deep model Deep.d_*: ' + lab, None))
+    ctx.extra['deep_token_comparison'] = dict(
+        circuits=['adder_subtractor', 'less_than', 'flatten_comparator',
+                  'ite_function', '_negate_if', 'abs_', 'multiplier',
+                  'restoring_divider'],
+        widths=f'2..{7 if ctx.thorough else 5} (all ordered pairs)',
+        starts=[0, 5], comparisons=len(deep), differing=len(dbad))
+    ctx.cov['evaluations'] += len(deep)
+    ctx.log('deep model compared')
     # the search oracle is cross-checked against the implementation on every
     # accepted case (cheap): keeps the oracle honest and catches a defect
     # that model and implementation would share
